@@ -47,11 +47,17 @@ class DocGen(object):
             return []
         return [r.choice(TAGWORDS) + (str(self.uid()) if r.random() < 0.5 else "") for _ in range(r.randint(1, 4))]
 
-    def desc(self):
+    def desc(self, container=False):
         r = self.rng
         if r.random() >= self.o["p_desc"]:
             return []
-        return ["%s %s" % (r.choice(["%%", "::", "=>", "~"]), self.words()) for _ in range(r.randint(1, 3))]
+        lines = ["%s %s" % (r.choice(["%%", "::", "=>", "~"]), self.words()) for _ in range(r.randint(1, 3))]
+        if container and r.random() < 0.4:
+            # prose below a Feature / Rule header may begin with any word -- also with a step keyword of the language or a
+            # markdown bullet (there are no steps at that level that it could be taken for)
+            kind = r.choice(["given", "when", "then", "and", "but"])
+            lines.insert(r.randrange(len(lines) + 1), "%s%s" % (r.choice(self.kws[kind]), self.words()))
+        return lines
 
     def kw(self, kind):
         al = self.kws[kind]
@@ -156,7 +162,7 @@ class DocGen(object):
         bg = self.background() if r.random() < self.o["p_background"] else None
         has = bool(bg and bg["steps"]) or feature_bg_steps
         # (a rule background WITHOUT steps still inherits the feature background steps)
-        return {"kind": "rule", "kw": self.kw("rule"), "tags": self.tags(), "name": self.name("R"), "desc": self.desc(),
+        return {"kind": "rule", "kw": self.kw("rule"), "tags": self.tags(), "name": self.name("R"), "desc": self.desc(container=True),
                 "background": bg, "items": self.items(has)}
 
     def feature(self):
@@ -166,7 +172,7 @@ class DocGen(object):
         items = self.items(has)
         for _ in range(r.randint(0, self.o["max_rules"])):
             items.append(self.rule(has))
-        return {"kind": "feature", "kw": self.kw("feature"), "tags": self.tags(), "name": self.name("F"), "desc": self.desc(),
+        return {"kind": "feature", "kw": self.kw("feature"), "tags": self.tags(), "name": self.name("F"), "desc": self.desc(container=True),
                 "background": bg, "items": items, "lang": self.lang}
 
 
